@@ -1,9 +1,13 @@
 (* C12_Properties.v — the property theorems of C12 and nothing else.
-   PARTIAL: that the hook runs in its own directory, that the environment variables point
-   to a context file with exactly the task's contexts and to EMPTY output files whose names
-   are unique per execution (also across concurrent executions) are facts about the OS
-   process; they are observed by the scripted hook on every case (C12_Spec.P_os) and not
-   proved.
+   PARTIAL: that the hook runs in its own directory, that the context file holds exactly the
+   task's contexts, that the output files are EMPTY and their names unique per execution (also
+   across concurrent executions) are facts about the OS process; they are observed by the
+   scripted hook on every case (C12_Spec.P_os) and not proved.
+   PROVED since the environment is in the model: how the hook's environment is assembled from the
+   operator's own environment and the six per-execution variables (hook.go, executor.go,
+   os/exec's last-duplicate-wins) - for EVERY environment of the operator the six variables
+   point to this execution's own files, everything else is inherited, the outputs the hook writes
+   are the ones read back (C12_env_*, C12_outputs_read_back, C12_model_P_env).
    The CONTENT of the metrics, admission-response and conversion-response files is part of the
    input (any byte string, [FText s]); the model reads it with the RFC 8259 reader of JsonText
    and decodes it the way encoding/json fills the Go structs.  "Malformed" is defined on the text
@@ -175,6 +179,49 @@ Theorem C12_json_whitespace_only : forall s, all_ws s = true -> parse_stream s =
 Proof. intros s H. split; [now apply stream_ws | now apply single_ws]. Qed.
 Print Assumptions C12_json_whitespace_only.
 
+(* ---- the hook's environment ---- *)
+
+(* whatever the operator's own environment holds (any variables, any values, duplicates, the six
+   names themselves): each of the six variables, as the hook process finds it, is the path of
+   this execution's own file of that kind *)
+Theorem C12_env_points_to_own_files : forall e k f,
+  In (k, Own f) per_exec_vars -> getenv (child_env e) k = Some (Own f).
+Proof. exact child_env_own. Qed.
+Print Assumptions C12_env_points_to_own_files.
+
+(* every other variable is inherited from the operator with its (last) value; nothing is invented *)
+Theorem C12_env_inherits_rest : forall e k,
+  is_contract_var k = false -> getenv (child_env e) k = lookup_last (os_environ e) k.
+Proof. exact child_env_inherits. Qed.
+Print Assumptions C12_env_inherits_rest.
+
+(* the hook finds one value per variable *)
+Theorem C12_env_one_value_per_variable : forall e, NoDup (map fst (child_env e)).
+Proof. exact child_env_nodup. Qed.
+Print Assumptions C12_env_one_value_per_variable.
+
+(* the `--config` call gets the operator's environment and nothing else *)
+Theorem C12_config_env_inherits : forall e k, getenv (config_env e) k = lookup_last (os_environ e) k.
+Proof. exact config_env_inherits. Qed.
+Print Assumptions C12_config_env_inherits.
+
+(* the outputs the hook writes through its variables are the ones the operator reads back, so an
+   execution is [run] on the hook's outputs and the operator's environment has no influence on it *)
+Theorem C12_outputs_read_back : forall i, readback i = i /\ exec i = run i /\ foreign_written i = false.
+Proof. intros i. split; [apply readback_id | split; [apply exec_is_run | apply no_foreign_written]]. Qed.
+Print Assumptions C12_outputs_read_back.
+
+Theorem C12_operator_env_irrelevant : forall i e,
+  exec (mkIn (i_exit i) (i_metrics i) (i_patch i) (i_admission i) (i_conversion i) (i_concurrent i) (i_namelen i) e)
+  = exec i.
+Proof. exact exec_env_irrelevant. Qed.
+Print Assumptions C12_operator_env_irrelevant.
+
+(* the environment clause of the predicate holds of the model on every input *)
+Theorem C12_model_P_env : forall i o, P_env (model_obs (i, o)) = true.
+Proof. exact model_P_env. Qed.
+Print Assumptions C12_model_P_env.
+
 (* ---- the whole predicate ---- *)
 
 (* the full statement: the logic half of P holds of the model on every input *)
@@ -185,6 +232,24 @@ Proof. exact model_P_logic. Qed.
 Print Assumptions C12_model_P_logic.
 
 (* ---- non-vacuity ---- *)
+(* the operator's environment holds METRICS_PATH twice, BINDING_CONTEXT_PATH and two unrelated variables *)
+Definition ex_env : list (N * N) := [(var_metrics, 7); (9, 1); (var_context, 3); (var_metrics, 8); (9, 2); (11, 5)].
+Example C12_env_hyp_met :
+  In (var_metrics, Own file_metrics) per_exec_vars
+  /\ lookup_last (os_environ ex_env) var_metrics = Some (Foreign 8)          (* a foreign value is there to be overridden *)
+  /\ getenv (child_env ex_env) var_metrics = Some (Own file_metrics)
+  /\ is_contract_var 9 = false /\ getenv (child_env ex_env) 9 = Some (Foreign 2)
+  /\ getenv (child_env ex_env) 12 = None
+  /\ length (child_env ex_env) = 8%nat
+  /\ getenv (config_env ex_env) var_metrics = Some (Foreign 8)
+  (* if the order of the two halves were inverted, the foreign value would win and the output be lost *)
+  /\ getenv (dedup_env (per_exec_vars ++ os_environ ex_env)) var_metrics = Some (Foreign 8)
+  /\ written (dedup_env (per_exec_vars ++ os_environ ex_env)) var_metrics file_metrics FValid = FEmpty
+  /\ P_env (mkOb true true true true true true 5 0 0 false false false
+                  [[(var_context, Some (Foreign 3)); (var_metrics, Some (Own file_metrics)); (var_patch, Some (Own file_patch));
+                    (var_admission, Some (Own file_admission)); (var_conversion, Some (Own file_conversion))]] false) = false.
+Proof. cbn. repeat split; try reflexivity; tauto. Qed.
+
 Definition ex_metrics_ok : bytes :=      (* {"name":"verif_c12_metric","set":1}\n{"group":"g","action":"expire"}\n *)
   [123; 34; 110; 97; 109; 101; 34; 58; 34; 118; 101; 114; 105; 102; 95; 99; 49; 50; 95; 109; 101; 116; 114; 105; 99; 34; 44;
    34; 115; 101; 116; 34; 58; 49; 125; 10;
@@ -193,24 +258,24 @@ Definition ex_docs : list json :=
   [JObj [(k_name, JStr probe_name); (k_set, JFlt [49])]; JObj [(k_group, JStr [103]); (k_action, JStr s_expire)]].
 
 Example C12_hyp_met :
-  o_started (run (mkIn 0 FValid FValid FEmpty FEmpty false 0)) = true
-  /\ o_success (run (mkIn 0 FValid FTruncated FEmpty FEmpty false 0)) = false
-  /\ o_started (run (mkIn 0 FEmpty FEmpty FEmpty FEmpty false 190)) = false
+  o_started (run (mkIn 0 FValid FValid FEmpty FEmpty false 0 [])) = true
+  /\ o_success (run (mkIn 0 FValid FTruncated FEmpty FEmpty false 0 [])) = false
+  /\ o_started (run (mkIn 0 FEmpty FEmpty FEmpty FEmpty false 190 [])) = false
   (* a text input on which the text side decides "well-formed", the run succeeds and the metric is expected *)
   /\ print_docs ex_docs = ex_metrics_ok /\ forallb wf_json ex_docs = true
   /\ (forall d, In d ex_docs -> doc_verdict metric_doc metric_rules d = Some true)
-  /\ all_wf (mkIn 0 (FText ex_metrics_ok) FValid FEmpty FEmpty false 0) = Some true
-  /\ o_success (run (mkIn 0 (FText ex_metrics_ok) FValid FEmpty FEmpty false 0)) = true
+  /\ all_wf (mkIn 0 (FText ex_metrics_ok) FValid FEmpty FEmpty false 0 []) = Some true
+  /\ o_success (run (mkIn 0 (FText ex_metrics_ok) FValid FEmpty FEmpty false 0 [])) = true
   /\ expect_metric (FText ex_metrics_ok) = Some true
   (* the stray-closer class: ex_metrics_ok ++ "" ++ "}" :: "\n{...}" *)
   /\ parse_stream ex_metrics_ok = Some ex_docs /\ stray 125 = true
-  /\ all_wf (mkIn 0 (FText (ex_metrics_ok ++ [] ++ 125 :: ex_metrics_ok)) FEmpty FEmpty FEmpty false 0) = Some false
+  /\ all_wf (mkIn 0 (FText (ex_metrics_ok ++ [] ++ 125 :: ex_metrics_ok)) FEmpty FEmpty FEmpty false 0 []) = Some false
   (* the truncation class: the first 20 bytes of the first document *)
   /\ print_value (nth 0 ex_docs JNull) = firstn 20 ex_metrics_ok ++ skipn 20 (print_value (nth 0 ex_docs JNull))
   (* a conversion response followed by other data: malformed, fails ({"convertedObjects":[]} x) *)
   /\ parse_single [123; 34; 99; 111; 110; 118; 101; 114; 116; 101; 100; 79; 98; 106; 101; 99; 116; 115; 34; 58; 91; 93; 125] <> None
-  /\ all_wf (mkIn 0 FEmpty FEmpty FEmpty (FText [123; 34; 99; 111; 110; 118; 101; 114; 116; 101; 100; 79; 98; 106; 101; 99; 116; 115; 34; 58; 91; 93; 125; 32; 120]) false 0) = Some false
-  /\ o_success (run (mkIn 0 FEmpty FEmpty FEmpty (FText [123; 34; 99; 111; 110; 118; 101; 114; 116; 101; 100; 79; 98; 106; 101; 99; 116; 115; 34; 58; 91; 93; 125; 32; 120]) false 0)) = false
+  /\ all_wf (mkIn 0 FEmpty FEmpty FEmpty (FText [123; 34; 99; 111; 110; 118; 101; 114; 116; 101; 100; 79; 98; 106; 101; 99; 116; 115; 34; 58; 91; 93; 125; 32; 120]) false 0 []) = Some false
+  /\ o_success (run (mkIn 0 FEmpty FEmpty FEmpty (FText [123; 34; 99; 111; 110; 118; 101; 114; 116; 101; 100; 79; 98; 106; 101; 99; 116; 115; 34; 58; 91; 93; 125; 32; 120]) false 0 [])) = false
   (* verdicts that do not decide: a key in another letter case *)
   /\ v_metrics (FText [123; 34; 78; 65; 77; 69; 34; 58; 34; 109; 34; 44; 34; 115; 101; 116; 34; 58; 49; 125]) = None.
 Proof.
